@@ -80,6 +80,7 @@ type WorldOpts struct {
 	DeleteKinds []string // force delete targets, in order: permanode | claim | delete
 	NoEmptyValues bool   // set/add claims never carry an empty value
 	PlainAttrsOnly bool  // only tag/title/description attributes (no ref-valued ones)
+	ContentTime    bool  // directed: a permanode whose time comes from its camliContent file, crossing another permanode's time
 }
 
 func (w *World) add(b sto.Blob, kind string, deps ...blob.Ref) {
@@ -287,6 +288,47 @@ func GenWorld(rng *rand.Rand, o WorldOpts) *World {
 			w.Claims = append(w.Claims, ClaimInfo{Ref: cb.Ref, Kind: kind, PN: pn, Attr: attr, Value: val, Date: d, Signer: si})
 			w.Features["claim-"+kind] = true
 		}
+	}
+	// directed pattern: the time of permanode 0 is the (late) mtime of its camliContent file, so the
+	// permanode order by time depends on whether the file has been indexed yet
+	if o.ContentTime && len(w.Permanodes) >= 2 {
+		content := make([]byte, 50+rng.Intn(100))
+		rng.Read(content)
+		fb, chunk := FileOf(label+"-late.bin", content, time.Date(2016, 5, 4, 3, 2, 1, 0, time.UTC))
+		w.add(chunk, "chunk")
+		w.add(fb, "file", chunk.Ref)
+		w.Files = append(w.Files, FileInfo{Ref: fb.Ref, Name: label + "-late.bin", Content: content, ModTime: time.Date(2016, 5, 4, 3, 2, 1, 0, time.UTC), Shape: "one-chunk"})
+		for i, pn := range w.Permanodes[:2] {
+			d := nextDate()
+			attr, val := "camliContent", fb.Ref.String()
+			if i == 1 {
+				attr, val = "title", "later claim, earlier time"
+			}
+			cb := w.Signers[0].Claim(Set, pn, attr, val, d)
+			w.add(cb, "claim", w.Signers[0].PubRef, pn)
+			w.Claims = append(w.Claims, ClaimInfo{Ref: cb.Ref, Kind: Set, PN: pn, Attr: attr, Value: val, Date: d, Signer: 1})
+		}
+		w.Features["content-time-pattern"] = true
+	}
+	// directed pattern: signer 1 builds a multi-valued attribute, then signer 2 touches the same
+	// attribute with value-deletes and adds (signer-specific caches must stay independent)
+	if o.TwoSigners && len(w.Signers) == 2 && len(w.Permanodes) > 0 && !o.Small {
+		pn := w.Permanodes[0]
+		mk := func(si int, kind, attr, val string) {
+			d := nextDate()
+			cb := w.Signers[si-1].Claim(kind, pn, attr, val, d)
+			w.add(cb, "claim", w.Signers[si-1].PubRef, pn)
+			w.Claims = append(w.Claims, ClaimInfo{Ref: cb.Ref, Kind: kind, PN: pn, Attr: attr, Value: val, Date: d, Signer: si})
+			w.Features["claim-"+kind] = true
+		}
+		mk(1, Add, "keyword", "k1")
+		mk(1, Add, "keyword", "k2")
+		mk(1, Add, "keyword", "k3")
+		mk(2, Del, "keyword", []string{"k1", "k2"}[rng.Intn(2)])
+		mk(2, Add, "keyword", "k9")
+		mk(1, Del, "keyword", "k3")
+		mk(2, Add, "keyword", "k3")
+		w.Features["two-signer-multivalue-pattern"] = true
 	}
 	// delete claims: on permanodes, claims, and other delete claims
 	for i := 0; i < nDel; i++ {
